@@ -109,6 +109,50 @@ fn main() {
             };
             gen_std::std_cases(&mut emit);
         }
+        "twins" => {
+            // distinct Rust types that cannot be told apart by name: `core::any::type_name` is the same for both of each pair
+            // (two closures of one function; two anonymous const blocks). Identity is the type, not its spelling.
+            fn closures() -> (scale_info::MetaType, scale_info::MetaType) {
+                let a = || {
+                    #[derive(scale_info::TypeInfo)]
+                    struct Twin(u8);
+                    scale_info::MetaType::new::<Twin>()
+                };
+                let b = || {
+                    #[derive(scale_info::TypeInfo)]
+                    struct Twin(u16, bool);
+                    scale_info::MetaType::new::<Twin>()
+                };
+                (a(), b())
+            }
+            let (a, b) = closures();
+            for (k, order) in [[a, b], [b, a]].iter().enumerate() {
+                let mut reg = scale_info::Registry::new();
+                let ia = reg.register_type(&order[0]).id;
+                let ib = reg.register_type(&order[1]).id;
+                let n_before = reg.types().count();
+                let ia2 = reg.register_type(&order[0]).id;
+                let pr: scale_info::PortableRegistry = reg.into();
+                let fields = |i: u32| match &pr.resolve(i).map(|t| t.type_def.clone()) {
+                    Some(scale_info::TypeDef::Composite(c)) => c.fields.len() as i64,
+                    _ => -1,
+                };
+                writeln!(
+                    w,
+                    "twins {} {} {} {} {} {} {} {} {}",
+                    k,
+                    ia,
+                    ib,
+                    ia2,
+                    n_before,
+                    pr.types.len(),
+                    fields(ia),
+                    fields(ib),
+                    (a == b) as u8
+                )
+                .unwrap();
+            }
+        }
         "stdall" => {
             let mut emit = |s: String| {
                 writeln!(w, "{}", s).unwrap();
@@ -145,10 +189,17 @@ fn main() {
                     let tid_eq = a.type_id() == b.type_id();
                     // definitions are compared only when needed (equal identity), to keep the run short
                     let info_eq = if eq || (i + j) % 7 == 0 { (*info_i == table[j].0.type_info()) as u8 } else { 2 };
+                    let c = a.cmp(b);
+                    let pc = a.partial_cmp(b) == Some(c)
+                        && b.partial_cmp(a) == Some(c.reverse())
+                        && (a < b) == (c == std::cmp::Ordering::Less)
+                        && (a <= b) == (c != std::cmp::Ordering::Greater)
+                        && (a > b) == (c == std::cmp::Ordering::Greater)
+                        && (a >= b) == (c != std::cmp::Ordering::Less);
                     writeln!(
                         w,
-                        "meta {} {} {} {} {} {} {} {} {}",
-                        k, table[i].1, table[j].1, eq as u8, cmp_eq as u8, anti as u8, hash_eq as u8, tid_eq as u8, info_eq
+                        "meta {} {} {} {} {} {} {} {} {} {}",
+                        k, table[i].1, table[j].1, eq as u8, cmp_eq as u8, anti as u8, hash_eq as u8, tid_eq as u8, info_eq, pc as u8
                     )
                     .unwrap();
                     k += 1;
